@@ -84,6 +84,8 @@ def nestle_store(ix, R):
                 ka = atom_of(fl, ta.args[1])
                 if ka is not None and ka.head == 'const':
                     entries[ka.args[0].strip("'")] = e.value
+                    if e.guards or len(e.loops) != 1:
+                        entries[ka.args[0].strip("'")] = fl.tab.atom('conditional', (e.value,))
     summary(R, '1.nestle', site, f, fl, entries, qev, trace, weights, f.loc(qev.node))
     # 3. map / mean / aliases
     why = []
@@ -103,13 +105,16 @@ def nestle_store(ix, R):
             st[unparse(e.target_ast)] = e
     why = []
     for k, v in (("nestle_output['solution']['samples']", samples), ("nestle_output['solution']['weights']", weights)):
-        if k not in st or not fl.tab.equal(st[k].value, v):
+        if k not in st or not fl.tab.equal(st[k].value, v) or st[k].guards:
             why.append('%s = %s' % (k, fmt(fl, st[k].value) if k in st else None))
+    rr = fl.of('return')
+    if len(rr) != 1 or rr[0].guards or rr[0].loops:
+        why.append('the output dictionary is returned conditionally')
     R.check('3.nestle.alias', 'ARG', site, 'stored samples / weights are the sampler result arrays unchanged',
             not why, key='; '.join(why), detail='; '.join(why), loc=f.loc())
     # per-parameter dict stored under its name
     ps = [e for e in fl.of('store') if lp in e.loops and "['fitparams']" in unparse(e.target_ast)]
-    okp = len(ps) == 1 and atom_of(fl, ps[0].target) is not None and \
+    okp = len(ps) == 1 and atom_of(fl, ps[0].target) is not None and not ps[0].guards and \
         fl.tab.equal(atom_of(fl, ps[0].target).args[1], fl.tab.atom('elem', (lp.iter_rf[0], i)))
     R.check('1.nestle.key', 'ARG', site, 'summary of column idx is stored under fit_names[idx]', okp,
             key='store %s' % [unparse(e.node) for e in ps], detail='%s' % [unparse(e.node) for e in ps], loc=f.loc())
@@ -148,6 +153,51 @@ def nest_store(ix, R, tag, site, samples_name, weights_name):
     R.check('1.%s.key' % tag, 'ARG', site, 'summary of column idx is stored under fit_names[idx]',
             ta is not None and fl.tab.equal(ta.args[1], fl.tab.atom('elem', (pl.iter_rf[0], i))),
             key=unparse(pst.target_ast), detail=unparse(pst.target_ast), loc=f.loc(pst.node))
+    # file layout of the sampler's sample files: weight in column 0, -2 log L in column 1, parameters from column 2
+    from sa.helpers import need
+    if tag == 'multinest':
+        pats = ['V_ma = [V_data[:, 2:]]', 'V_cw = [V_data[:, 0]]', 'V_mw.append(V_cw[0])',
+                'V_chain = [float(V_x) for V_x in V_line.split()[2:]]', 'V_cws.append(float(V_line.split()[0]))']
+        under = ['self.multimodes', 'len(V_chain) > 0', "V_line != '\\n'", 'V_idx > 2',
+                 "V_lines[V_idx - 1] == '\\n' and V_lines[V_idx - 2] == '\\n'"]
+    else:
+        pats = ['V_n = len(self.fit_names)', 'V_ma = [V_data[:, 2:V_n + 2]]', 'V_mw = [V_data[:, 0]]',
+                'V_ma.append(V_d2[:, 2:V_n + 2])', 'V_mw.append(V_d2[:, 0])']
+        under = ['self.do_clustering', 'V_nc == 1']
+    need(R, '1.%s.columns' % tag, 'TAB', site,
+         'samples are read from the sampler file with the weight in column 0 and the fitted parameters from column 2 on, '
+         'in single-mode and in per-mode files alike', f, pats, under=under)
+    # census: every column taken from a loadtxt() table is column 0 or the block starting at column 2
+    tables = {n.targets[0].id for n in ast.walk(f.node) if isinstance(n, ast.Assign) and len(n.targets) == 1 and
+              isinstance(n.targets[0], ast.Name) and isinstance(n.value, ast.Call) and unparse(n.value.func).endswith('loadtxt')}
+    cols = []
+    for n in ast.walk(f.node):
+        if isinstance(n, ast.Subscript) and isinstance(n.value, ast.Name) and n.value.id in tables:
+            sl = n.slice
+            ok_ = isinstance(sl, ast.Tuple) and len(sl.elts) == 2 and isinstance(sl.elts[0], ast.Slice) and \
+                sl.elts[0].lower is None and sl.elts[0].upper is None
+            if ok_:
+                c = sl.elts[1]
+                ok_ = (isinstance(c, ast.Constant) and c.value == 0) or (
+                    isinstance(c, ast.Slice) and isinstance(c.lower, ast.Constant) and c.lower.value == 2 and c.step is None)
+            cols.append((unparse(n), ok_))
+    badc = [t for t, ok_ in cols if not ok_]
+    R.check('1.%s.columns.all' % tag, 'TAB', site,
+            'every read of a sample table takes column 0 (weights) or the columns from 2 on (parameters)',
+            len(cols) >= 2 and not badc, key='; '.join(badc) or '%d reads' % len(cols),
+            detail='reads %s' % [t for t, _ in cols], loc=f.loc())
+    # the solution dictionary and each summary are stored unconditionally, and the result returned
+    whys = []
+    if pst.guards:
+        whys.append('summary stored under %s' % [g.text() for g in pst.guards])
+    sol = [e for e in fl.of('store') if e.loops == (ml,) and 'solution' in fmt(fl, e.target)]
+    if len(sol) != 1 or sol[0].guards or not fl.tab.equal(sol[0].value, md[0].value):
+        whys.append('the mode dictionary is not stored under solution<mode> for every mode')
+    rr = fl.of('return')
+    if len(rr) != 1 or rr[0].guards or rr[0].loops:
+        whys.append('the result is returned conditionally')
+    R.check('1.%s.store' % tag, 'ARG', site, 'every summary and every mode dictionary is stored, and the collection returned',
+            not whys, key='; '.join(whys), detail='; '.join(whys), loc=f.loc())
     okm = 'nest_map' in entries and "['maximum a posterior']" in fmt(fl, entries['nest_map']) \
         and fl.tab.equal(atom_of(fl, entries['nest_map']).args[-1], i)
     R.check('3.%s.map' % tag, 'ARG', site, "nest_map is the sampler's 'maximum a posterior' entry of the same parameter index",
@@ -203,6 +253,54 @@ def derived(ix, R):
                 fl.tab.equal(inner.iter_rf[0], code(fl, 'self.derived_names')) and
                 fl.tab.equal(inner.iter_rf[1], code(fl, 'self.derived_values'))):
             why.append('derived values are not zipped with their names')
+    # partition of the samples over the ranks and restoration of the sample order after the gather
+    why6 = []
+    # values go to list 0 and weights to list 1 of each parameter's pair, and those are what is gathered
+    if len(apps) == 2:
+        W_ = spec(fl, 'self.get_weights(S)', param_env(fl, f, ['S']))
+        sl_ = apps[0].loops[0]
+        for a_ in apps:
+            isw = fl.tab.equal(a_.args[0], fl.tab.atom('idx', (W_, sl_.index)))
+            ra_ = atom_of(fl, a_.recv_rf) if a_.recv_rf is not None else None
+            slot = ra_.args[1].const() if ra_ is not None and ra_.head == 'idx' and isinstance(ra_.args[1], RF) else None
+            if slot != (1 if isw else 0):
+                why6.append('%s appended to list %s of the pair' % ('weight' if isw else 'value', slot))
+        for g_, k_, nm_ in ((qev.args[0], 0, 'trace'), (W, 1, 'weights')):
+            ga = atom_of(fl, g_) if g_ is not None else None
+            src = atom_of(fl, ga.args[0]) if ga is not None and ga.head == 'call' and 'allreduce' in ga.extra[0] and ga.args else None
+            if src is None or src.head != 'idx' or not isinstance(src.args[1], RF) or src.args[1].const() != k_:
+                why6.append('the gathered %s is not list %d of the pair' % (nm_, k_))
+    if len(apps) == 2:
+        sl = apps[0].loops[0]
+        ra = [fmt(fl, x) for x in (sl.range_args or [])]
+        want_r = [fmt(fl, spec(fl, x, param_env(fl, f, ['S']))) for x in ('mpi.get_rank()', 'len(self.get_samples(S))', 'mpi.nprocs()')]
+        if ra != want_r:
+            why6.append('sample loop is range(%s), expected range(rank, number of samples, number of ranks)' % ', '.join(ra))
+    W0 = spec(fl, 'self.get_weights(S)', param_env(fl, f, ['S']))
+    stores_ = [e for e in fl.of('store') if lp in e.loops]
+    tr_g = qev.args[0]
+    w_g = W
+    for buf, nm in ((tr_g, 'trace'), (w_g, 'weights')):
+        want_t = fl.tab.atom('idx', (buf, spec(fl, 'argsort(w)', {'w': W0})))
+        want_v = fl.tab.atom('idx', (buf, spec(fl, 'argsort(g)', {'g': w_g})))
+        hit = [e for e in stores_ if fl.tab.equal(e.target, want_t) and fl.tab.equal(e.value, want_v)
+               and fl.events.index(e) < fl.events.index(qev) and not [g for g in e.guards if not g.early]]
+        if len(hit) != 1:
+            why6.append('the gathered %s is not put back into sample order (X[argsort(weights)] = X[argsort(gathered weights)]) '
+                        'before the quantiles' % nm)
+    keyst = [e for e in stores_ if atom_of(fl, e.target) is not None and atom_of(fl, e.target).head == 'idx'
+             and 'derived' in fmt(fl, atom_of(fl, e.target).args[1])]
+    rets = [e for e in fl.of('return') if e.value is not None and fmt(fl, e.value) != 'None']
+    if len(keyst) != 1 or [g for g in keyst[0].guards if not g.early] or not dst or \
+            not fl.tab.equal(keyst[0].value, dst[0].value):
+        why6.append('the summary dictionary is not stored under <name>_derived for every derived parameter')
+    elif len(rets) != 1 or rets[0].loops or [g for g in rets[0].guards if not g.early] or \
+            not fl.tab.equal(rets[0].value, atom_of(fl, keyst[0].target).args[0]):
+        why6.append('the dictionary of summaries is not what is returned')
+    R.check('6.order', 'PERM', site,
+            'samples are dealt rank::nprocs; after the gather both the trace and its weights are re-ordered to the sample '
+            'order by the same pair of argsorts; each summary is stored under <name>_derived and the dictionary returned',
+            not why6, key='; '.join(why6), detail='; '.join(why6), loc=f.loc())
     R.check('6.trace', 'ARG', site,
             'each processed sample: unconditional update_model(samples[idx]) and initialize_profiles(), then exactly one (value, weights[idx]) append per derived parameter',
             not why, key='; '.join(why), detail='; '.join(why), loc=f.loc())
@@ -340,13 +438,57 @@ def generate_solution(ix, R):
                                 extra=('fn:self._model.model',) + tuple(sorted(mcalls[0].kw)))
             if not sp.args or not fl.tab.equal(sp.args[0], first):
                 why.append('spectrum output built from %s' % (fmt(fl, sp.args[0]) if sp.args else None))
+        # none of the six steps may be skipped
+        for e in evs:
+            if e.kind == 'call' and (e.name in ('update_model',) or unparse(e.node.func) in (
+                    'self._model.model', 'self._binner.generate_spectrum_output', 'self._model.generate_profiles')):
+                if [g for g in e.guards if g.test is not None]:
+                    why.append('%s is conditional on %s' % (unparse(e.node.func), [g.text() for g in e.guards]))
         R.check('5.order', 'DOM', site, stmt, not why, key='; '.join(why), detail='; '.join(why), loc=f.loc())
         sts = {unparse(e.target_ast): e for e in fl.of('store') if lp in e.loops and len(e.loops) == 1}
         okk = "sol_values['Spectra']" in sts and "sol_values['Profiles']" in sts and \
             'generate_spectrum_output' in fmt(fl, sts["sol_values['Spectra']"].value) and \
             'generate_profiles' in fmt(fl, sts["sol_values['Profiles']"].value)
+        okk = okk and not sts["sol_values['Spectra']"].guards and not sts["sol_values['Profiles']"].guards
         R.check('5.keys', 'ARG', site, "results are stored under 'Spectra' and 'Profiles'", okk,
                 key='stores %s' % sorted(sts), detail='stores %s' % sorted(sts), loc=f.loc())
+        # every solution's dictionary ends up in the result under its own id, with the sampler's extras, and is returned
+        why = []
+        sid = fl.tab.atom('idx', (item, fl.tab.const(0)))
+        fin = [e for e in fl.of('store') if e.loops == (lp,) and atom_of(fl, e.target) is not None and
+               atom_of(fl, e.target).head == 'idx' and 'solution' in fmt(fl, atom_of(fl, e.target).args[1])
+               and 'Spectra' not in fmt(fl, e.target) and 'derived' not in fmt(fl, e.target)]
+        if len(fin) != 1 or fin[0].guards or not atom_of(fl, fin[0].target).args[1].mentions(
+                lambda a: a.head == 'idx' and True):
+            why.append('the per-solution dictionary is not stored unconditionally under solution<id>')
+        r = [e for e in fl.of('return')]
+        if len(r) != 1 or r[0].guards or r[0].loops or (fin and not fl.tab.equal(r[0].value, atom_of(fl, fin[0].target).args[0])):
+            why.append('the dictionary of solutions is not what is returned')
+        ex = [e for e in fl.of('store') if len(e.loops) == 2 and e.loops[0] is lp]
+        vals = fl.tab.atom('idx', (item, fl.tab.const(3)))
+        exok = [e for e in ex if fl.tab.equal(e.loops[1].iter_rf[0], vals) and not e.guards]
+        if len(exok) != 1:
+            why.append('the (key, value) extras yielded by the sampler are not copied into the solution')
+        # derived parameters: for every solution, whenever there are derived parameters
+        cd = [e for e in calls(fl, 'compute_derived_trace')]
+        if len(cd) != 1 or len(cd[0].loops) != 1 or unparse(cd[0].loops[0].iter_ast) != 'self.get_solution()':
+            why.append('compute_derived_trace is not called once per solution')
+        else:
+            c0 = cd[0]
+            lic = spec(fl, 'len(self.derived_names) > 0')
+            bad = [g for g in c0.guards if not (g.positive and fl.tab.equal(g.rf, lic))]
+            it2 = fl.tab.atom('elem', (c0.loops[0].iter_rf[0], c0.loops[0].index))
+            if bad or not c0.args or not fl.tab.equal(c0.args[0], fl.tab.atom('idx', (it2, fl.tab.const(0)))):
+                why.append('compute_derived_trace(%s) under %s' % ([fmt(fl, a) for a in c0.args], [g.text() for g in c0.guards]))
+            ups = [e for e in calls(fl, 'update') if e.loops == c0.loops and 'derived_params' in unparse(e.node.func)]
+            res = fl.tab.atom('call', tuple(c0.args), extra=('fn:self.compute_derived_trace',))
+            if len(ups) != 1 or not fl.tab.equal(ups[0].args[0], res) or [
+                    g for g in ups[0].guards if not (g.early or (g.positive and fl.tab.equal(g.rf, lic)))]:
+                why.append('the derived summaries are not merged into derived_params of the same solution')
+        R.check('5.store', 'ARG', site,
+                'every solution: extras copied, dictionary stored under solution<id> and returned; with derived parameters, '
+                'compute_derived_trace(id) is merged into derived_params of that solution',
+                not why, key='; '.join(why), detail='; '.join(why), loc=f.loc())
 
 
 def run(ix, R):
@@ -381,6 +523,12 @@ def run(ix, R):
 
 
 MUTANTS = [
+    ('derived-slot-swap', OP, 'derived_param[p][0].append(v)', 'derived_param[p][1].append(v)', '6.order'),
+    ('derived-range', OP, 'for idx in range(rank, len_samples, num_procs):', 'for idx in range(rank, len_samples - 1, num_procs):', '6.order'),
+    ('derived-noreorder', OP, '            all_trace[sorted_weights] = all_trace[all_weight_sort]\n', '', '6.order'),
+    ('multinest-column', MN, 'modes_array = [data[:, 2:]]', 'modes_array = [data[:, 1:]]', '1.multinest.columns'),
+    ('polychord-weight-column', PC, 'modes_weights = [data[:, 0]]\n        modes_array = np.asarray', 'modes_weights = [data[:, 1]]\n        modes_array = np.asarray', '1.polychord.columns.all'),
+    ('solution-median-first', OP, 'self.update_model(optimized_map)', 'self.update_model(optimized_median)', '5.order'),
     ('nestle-sigma-m', NE, "param['sigma_m'] = q_50 - q_16", "param['sigma_m'] = q_84 - q_50", '1.nestle'),
     ('nestle-value', NE, "param['value'] = q_50", "param['value'] = q_84", '1.nestle'),
     ('nestle-unweighted', NE, 'q_16, q_50, q_84 = quantile_corner(trace, [0.16, 0.5, 0.84], weights=np.asarray(weights))', 'q_16, q_50, q_84 = quantile_corner(trace, [0.16, 0.5, 0.84])', '1.nestle'),
@@ -407,4 +555,15 @@ MUTANTS = [
 EQUIVALENTS = [
     ('nestle-reorder', NE, "param['sigma_p'] = q_84 - q_50", "param['sigma_p'] = -q_50 + q_84"),
     ('quantile-cumsum', UU, 'cdf = np.add.accumulate(weights[idx])', 'cdf = np.cumsum(weights[idx])'),
+]
+UNCONDITIONAL = [
+    (OP, 'all_weight[sorted_weights] = all_weight[all_weight_sort]'),
+    (OP, 'all_trace[sorted_weights] = all_trace[all_weight_sort]'),
+    (OP, "result_dict[f'{param}_derived'] = derived"),
+    (OP, 'self.update_model(optimized_map)'),
+    (OP, 'self.update_model(optimized_median)'),
+    (OP, "solution_dict['solution{}'.format(solution)] = sol_values"),
+    (NE, "param['value'] = q_50"),
+    (NE, "nestle_output['solution']['weights'] = weights"),
+    (MN, "NEST_out['solutions']['solution{}'.format(nmode)] = mydict"),
 ]
